@@ -266,12 +266,12 @@ class BodyMixin:
             self._raise(err, RequestError)
         markup = None
         mp = MULTIPART_BOUNDARY_PATT.match(self.environ.get('CONTENT_TYPE', ''))
-        if mp is not None:
-            boundary = mp.group(1)
-            if len(boundary) > 1 and boundary[0] == boundary[-1] == '"':
-                boundary = boundary[1:-1]  # quoted-string form (rfc2046)
-            markup = MultipartMarkup(boundary)
         try:
+            if mp is not None:
+                boundary = mp.group(1)
+                if len(boundary) > 1 and boundary[0] == boundary[-1] == '"':
+                    boundary = boundary[1:-1]  # quoted-string form (rfc2046)
+                markup = MultipartMarkup(boundary)  # may raise InvalidBoundaryError
             body = _body_read(
                 self.environ['wsgi.input'].read,
                 self.config.max_memfile_size,
